@@ -361,6 +361,9 @@ class ClockDevice {
 
   KeepModel keep;   // C13
   SyncModel sync;   // C14
+  SyncModel syncBeforeTimeout;      // snapshot taken when the model decides "timed out" (see doLoop)
+  bool timeoutSnapshotValid = false;
+  int64_t prevLoopT = -1;
   bool built = false;
   int64_t carryAtSet = 0;
   bool sawCarryGap = false, sawFailThenSuccess = false, sawFail = false;
